@@ -115,6 +115,16 @@ func (env *Env) resolveType(te TypeExpr) (types.Type, Sort, string) {
 			return types.NewMap(k, v), "(Array " + ks + " " + vs + ")", "gmap"
 		}
 		return nil, "(Array " + ks + " " + vs + ")", "gmap"
+	case "inst":
+		g, _, _ := env.resolveType(TypeExpr{Kind: "name", Name: te.Name})
+		a, _, _ := env.resolveType(*te.Elem)
+		if n, ok := g.(*types.Named); ok && a != nil && n.TypeParams().Len() == 1 {
+			if it, err := types.Instantiate(nil, n, []types.Type{a}, false); err == nil {
+				return it, env.vc.sortOf(it), ""
+			}
+		}
+		env.fail("cannot instantiate %s", te.String())
+		return nil, "Int", ""
 	case "set":
 		k, ks, _ := env.resolveType(*te.Elem)
 		return k, "(Array " + ks + " Bool)", "gset"
